@@ -384,9 +384,24 @@ func (s *codecSim) makeVote(dir int, d *stepDraw) (*voteFields, string) {
 	case 28:
 		f.P, f.P1s = [32]byte{}, [64]byte{}
 		tag = "zero-pk"
-	case 29:
-		f.EncDig = zero32
-		tag = "partial-prop"
+	case 29, 26:
+		// partial proposal value: any subset of its four fields empty (omitted on the wire)
+		zm := 1 + pv/64%15
+		if zm&1 != 0 {
+			f.Dig = zero32
+		}
+		if zm&2 != 0 {
+			f.EncDig = zero32
+		}
+		if zm&4 != 0 {
+			f.Oper = 0
+		} else if f.Oper == 0 {
+			f.Oper = uint64(1 + pv/1024)
+		}
+		if zm&8 != 0 {
+			f.Oprop = zero32
+		}
+		tag = fmt.Sprintf("partial-prop(%x)", zm)
 	case 27:
 		f.P2, f.P2s = [32]byte{}, [64]byte{}
 		tag = "zero-pk2"
